@@ -57,6 +57,9 @@ Proof.
   intros Hr R F. split; [exact R|]. split; [exact F|]. intros r'. apply plain_place; assumption.
 Qed.
 
+Lemma crr_hsel hs : forall n, hsel (crr_blocks hs) n = match hsel hs n with Some h => Some (fst (crr_block h)) | None => None end.
+Proof. induction hs as [|b r IH]; intros n; simpl; [reflexivity|]. destruct n; [reflexivity | apply IH]. Qed.
+
 Theorem crr_correct_all :
   (forall st s d tr o s' d', run_stmt st s d tr o s' d' -> crr_ok_stmt' st s d tr o s' d') /\
   (forall b s d tr o s' d', run_block b s d tr o s' d' -> crr_ok_block b s d tr o s' d').
@@ -116,11 +119,11 @@ Proof.
     + destruct IHb as [Rb _]. destruct (crr_block body) as [body' fb]. destruct (crr_block orelse) as [orelse' fo]. simpl in *.
       eapply RWhileBrk; eassumption.
     + destruct (crr_block body); destruct (crr_block orelse); simpl; discriminate.
-  - (* while ret *)
-    intros c body orelse s d tc d1 tr s1 d2 Ec _ IHb. apply from_plain; simpl.
+  - (* while ret / raise *)
+    intros c body orelse s d tc d1 tr o s1 d2 Ec _ IHb Ho. apply from_plain; simpl.
     + destruct (crr_block body); destruct (crr_block orelse); reflexivity.
     + destruct IHb as [Rb _]. destruct (crr_block body) as [body' fb]. destruct (crr_block orelse) as [orelse' fo]. simpl in *.
-      eapply RWhileRet; eassumption.
+      eapply RWhileOut; eassumption.
     + destruct (crr_block body); destruct (crr_block orelse); simpl; discriminate.
   - (* with *)
     intros l body s d tr o s' d' _ IHb. apply from_plain; simpl.
@@ -135,12 +138,27 @@ Proof.
       eapply RTryN; eassumption.
     + destruct (crr_block body); destruct (crr_block orelse); destruct (crr_block final); simpl; discriminate.
   - (* try J *)
-    intros body hs orelse final s d tr1 ob s1 d1 tr3 s3 d3 _ IHb Nb _ IHf. apply from_plain; simpl.
+    intros body hs orelse final s d tr1 ob s1 d1 tr3 s3 d3 _ IHb Nb Nr _ IHf. apply from_plain; simpl.
     + destruct (crr_block body); destruct (crr_block orelse); destruct (crr_block final); reflexivity.
     + destruct IHb as [Rb _]. destruct IHf as [Rf _].
       destruct (crr_block body) as [b1 f1]. destruct (crr_block orelse) as [b2 f2]. destruct (crr_block final) as [b3 f3]. simpl in *.
       eapply RTryJ; eassumption.
     + destruct (crr_block body); destruct (crr_block orelse); destruct (crr_block final); simpl; discriminate.
+  - (* try U *)
+    intros body hs orelse final s d tr1 s1 d1 tr3 s3 d3 _ IHb Eh _ IHf. apply from_plain; simpl.
+    + destruct (crr_block body); destruct (crr_block orelse); destruct (crr_block final); reflexivity.
+    + destruct IHb as [Rb _]. destruct IHf as [Rf _].
+      destruct (crr_block body) as [b1 f1]. destruct (crr_block orelse) as [b2 f2]. destruct (crr_block final) as [b3 f3]. simpl in *.
+      eapply RTryU; [exact Rb | rewrite crr_hsel, Eh; reflexivity | exact Rf].
+    + destruct (crr_block body); destruct (crr_block orelse); destruct (crr_block final); simpl; discriminate.
+  - (* try H *)
+    intros body hs orelse final s d tr1 s1 d1 h tr2 oh s2 d2 tr3 s3 d3 _ IHb Eh _ IHh _ IHf. apply from_plain; simpl.
+    + destruct (crr_block body); destruct (crr_block orelse); destruct (crr_block final); reflexivity.
+    + destruct IHb as [Rb _]. destruct IHf as [Rf _]. destruct IHh as [Rh _].
+      destruct (crr_block body) as [b1 f1]. destruct (crr_block orelse) as [b2 f2]. destruct (crr_block final) as [b3 f3]. simpl in *.
+      eapply RTryH; [exact Rb | rewrite crr_hsel, Eh; reflexivity | exact Rh | exact Rf].
+    + destruct (crr_block body); destruct (crr_block orelse); destruct (crr_block final); simpl; discriminate.
+  - (* raise *) intros l s d. apply from_plain; simpl; [reflexivity | constructor | discriminate].
   - (* nil *) intros s d. split; [constructor | simpl; discriminate].
   - (* cons N *)
     intros st r s d tr s1 d1 tr2 o2 s2 d2 _ IHs _ IHr. unfold crr_ok_block. rewrite crr_block_cons. simpl.
@@ -161,12 +179,38 @@ Fixpoint rclean_stmt (st : stmt) : bool :=
   | SSet f _ => negb (Nat.eqb f rflag)
   | SIf c b1 b2 => rclean_cond c && rclean_block b1 && rclean_block b2
   | SWhile c b1 b2 => rclean_cond c && rclean_block b1 && is_nil b2
-  | STry b1 _ b2 b3 => rclean_block b1 && rclean_block b2 && rclean_block b3 && jfree_block b3
+  | STry b1 hs b2 b3 => rclean_block b1 && rclean_blocks hs && rclean_block b2 && rclean_block b3 && jfree_block b3
   | SWith _ b1 => rclean_block b1
   | _ => true
   end
 with rclean_block (b : block) : bool :=
-  match b with BNil => true | BCons st r => rclean_stmt st && rclean_block r end.
+  match b with BNil => true | BCons st r => rclean_stmt st && rclean_block r end
+with rclean_blocks (h : blocks) : bool :=
+  match h with HNil => true | HCons b r => rclean_block b && rclean_blocks r end.
+
+Lemma rclean_hsel hs : forall n h, rclean_blocks hs = true -> hsel hs n = Some h -> rclean_block h = true.
+Proof.
+  induction hs as [|b r IH]; intros n h P E; simpl in *; [discriminate|].
+  apply andb_true_iff in P; destruct P as [Pb Pr]. destruct n; [injection E as <-; exact Pb | eapply IH; eassumption].
+Qed.
+
+Lemma ret_hsel hs : forall n h, hsel hs n = Some h ->
+  hsel (fst (ret_blocks hs)) n = Some (fst (ret_block false false h)) /\
+  (snd (ret_block false false h) = true -> snd (ret_blocks hs) = true).
+Proof.
+  induction hs as [|b r IH]; intros n h E; simpl in *; [discriminate|].
+  destruct (ret_block false false b) as [b' h1] eqn:E1. destruct (ret_blocks r) as [r' h2] eqn:E2.
+  destruct n.
+  - injection E as <-. rewrite E1. simpl. split; [reflexivity | intros ->; reflexivity].
+  - destruct (IH n h E) as [Hs Hu]. simpl in *. split; [exact Hs | intros U; rewrite (Hu U); apply orb_true_r].
+Qed.
+
+Lemma ret_hsel_none hs : forall n, hsel hs n = None -> hsel (fst (ret_blocks hs)) n = None.
+Proof.
+  induction hs as [|b r IH]; intros n E; simpl in *; [reflexivity|].
+  destruct (ret_block false false b) as [b' h1] eqn:E1. destruct (ret_blocks r) as [r' h2] eqn:E2.
+  destruct n; [discriminate|]. simpl. exact (IH n E).
+Qed.
 
 Definition ragree (s sl : store) : Prop := forall h, h <> rflag -> sl h = s h.
 Definition ro (o : outcome) : outcome := match o with ORet => ONormal | _ => o end.
@@ -395,21 +439,25 @@ Proof.
     destruct (LC sl A) as [sl' [R X]]. { intros [H|H]; apply Pre; [left; exact H | right; rewrite H; reflexivity]. }
     exists sl'. split; [apply run_one; exact R|]. destruct X as [A' [P1 P2]]. split; [exact A'|]. split; [|exact P2].
     intros E; discriminate.
-  - (* while: return -> the flag ends the loop at its next test *)
-    intros t body orelse s d tc d1 tr s1 d2 Ec _ IHb.
-    assert (LC : rclean_stmt (SWhile t body orelse) = true -> forall used, rloop_claim (SWhile t body orelse) s used d (tc ++ tr) ORet s1 d2).
+  - (* while: return -> the flag ends the loop at its next test; raise -> leaves the loop *)
+    intros t body orelse s d tc d1 tr o s1 d2 Ec _ IHb Ho.
+    assert (LC : rclean_stmt (SWhile t body orelse) = true -> forall used, rloop_claim (SWhile t body orelse) s used d (tc ++ tr) o s1 d2).
     { intros Cl used.
       simpl in Cl. apply andb_true_iff in Cl; destruct Cl as [Cl Co]. apply andb_true_iff in Cl; destruct Cl as [Ct Cb].
       simpl. pose proof (IHb Cb false false) as IB.
       destruct (ret_block false false body) as [body' hb] eqn:E1.
       intros sl A Pre.
       destruct (IB sl A) as [sl1 [Rb [A1 [Q1 Q2]]]]. { simpl. intros [H|[H|H]]; try discriminate. apply Pre; right; exact H. }
-      simpl in Rb, Q1, Q2. destruct (Q1 eq_refl) as [T1 ->].
-      exists sl1. rewrite <- (rceval_agree t s sl d Ct A) in Ec. split.
-      - replace (tc ++ tr) with (tc ++ tr ++ ([] ++ [])) by (simpl; rewrite app_nil_r; reflexivity).
-        eapply RWhileIter; [rewrite (ceval_guard _ _ _ _ _ Pre); exact Ec | exact Rb | left; reflexivity |].
-        eapply RWhileEnd; [rewrite orb_true_r; simpl; rewrite T1; reflexivity | constructor].
-      - split; [exact A1|]. split; [intros _; split; [exact T1 | reflexivity] | congruence]. }
+      simpl in Rb, Q1, Q2. destruct Ho as [-> | ->].
+      - destruct (Q1 eq_refl) as [T1 ->].
+        exists sl1. rewrite <- (rceval_agree t s sl d Ct A) in Ec. split.
+        + replace (tc ++ tr) with (tc ++ tr ++ ([] ++ [])) by (simpl; rewrite app_nil_r; reflexivity).
+          eapply RWhileIter; [rewrite (ceval_guard _ _ _ _ _ Pre); exact Ec | exact Rb | left; reflexivity |].
+          eapply RWhileEnd; [rewrite orb_true_r; simpl; rewrite T1; reflexivity | constructor].
+        + split; [exact A1|]. split; [intros _; split; [exact T1 | reflexivity] | congruence].
+      - exists sl1. rewrite <- (rceval_agree t s sl d Ct A) in Ec. split.
+        + eapply RWhileOut; [rewrite (ceval_guard _ _ _ _ _ Pre); exact Ec | exact Rb | right; reflexivity].
+        + split; [exact A1|]. split; [discriminate | intros _; apply Q2; discriminate]. }
     split; [|exact LC]. intros Cl used sl A Pre. specialize (LC Cl used).
     simpl in Cl. apply andb_true_iff in Cl; destruct Cl as [Cl Co]. destruct orelse; [|discriminate].
     simpl in LC, Pre |- *. destruct (ret_block false false body) as [body' hb]. simpl in *.
@@ -426,7 +474,7 @@ Proof.
     intros body hs orelse final s d tr1 s1 d1 tr2 o2 s2 d2 tr3 s3 d3 _ IHb _ IHo _ IHf. split; [|intros; exact I].
     intros Cl used sl A Pre. simpl in Cl.
     apply andb_true_iff in Cl; destruct Cl as [Cl Jf]. apply andb_true_iff in Cl; destruct Cl as [Cl Cf].
-    apply andb_true_iff in Cl; destruct Cl as [Cb Co].
+    apply andb_true_iff in Cl; destruct Cl as [Cl Co]. apply andb_true_iff in Cl; destruct Cl as [Cb Ch].
     simpl in Pre |- *.
     pose proof (IHb Cb false false sl A) as IB.
     destruct (ret_block false false body) as [body' h1] eqn:E1.
@@ -450,10 +498,10 @@ Proof.
       * intros E. destruct (Q1 E) as [X Y]. split; [rewrite C3; exact X | rewrite Y; rewrite ?orb_true_r; reflexivity].
       * intros N. rewrite C3, (Q2 N). exact C1.
   - (* try: body jumps, finally *)
-    intros body hs orelse final s d tr1 ob s1 d1 tr3 s3 d3 _ IHb Nb _ IHf. split; [|intros; exact I].
+    intros body hs orelse final s d tr1 ob s1 d1 tr3 s3 d3 _ IHb Nb Nr _ IHf. split; [|intros; exact I].
     intros Cl used sl A Pre. simpl in Cl.
     apply andb_true_iff in Cl; destruct Cl as [Cl Jf]. apply andb_true_iff in Cl; destruct Cl as [Cl Cf].
-    apply andb_true_iff in Cl; destruct Cl as [Cb Co].
+    apply andb_true_iff in Cl; destruct Cl as [Cl Co]. apply andb_true_iff in Cl; destruct Cl as [Cb Ch].
     simpl in Pre |- *.
     pose proof (IHb Cb false false sl A) as IB.
     destruct (ret_block false false body) as [body' h1] eqn:E1.
@@ -468,17 +516,66 @@ Proof.
     assert (C3 : sl3 rflag = sl1 rflag) by (apply F2; discriminate).
     exists sl3. split; [|split; [exact A3|]].
     + apply run_one. destruct ob; try congruence.
-      * eapply RTryJ; [exact R1 | discriminate | exact R3].
-      * eapply RTryJ; [exact R1 | discriminate | exact R3].
+      * eapply RTryJ; [exact R1 | discriminate | discriminate | exact R3].
+      * eapply RTryJ; [exact R1 | discriminate | discriminate | exact R3].
       * (* the body returned: in the lowered program it completes with the flag set and the else clause is skipped *)
         destruct (P1 eq_refl) as [Ct ->]. simpl in R1.
         replace (tr1 ++ tr3) with (tr1 ++ [] ++ tr3) by reflexivity.
         eapply RTryN; [exact R1 | apply relse_skipped, Ct | exact R3].
-      * eapply RTryJ; [exact R1 | discriminate | exact R3].
-      * eapply RTryJ; [exact R1 | discriminate | exact R3].
+      * eapply RTryJ; [exact R1 | discriminate | discriminate | exact R3].
+      * eapply RTryJ; [exact R1 | discriminate | discriminate | exact R3].
     + split.
       * intros E. destruct (P1 E) as [X ->]. split; [rewrite C3; exact X | reflexivity].
       * intros N. rewrite C3. apply P2, N.
+  - (* try: body raises, no handler, finally *)
+    intros body hs orelse final s d tr1 s1 d1 tr3 s3 d3 _ IHb Eh _ IHf. split; [|intros; exact I].
+    intros Cl used sl A Pre. simpl in Cl.
+    apply andb_true_iff in Cl; destruct Cl as [Cl Jf]. apply andb_true_iff in Cl; destruct Cl as [Cl Cf].
+    apply andb_true_iff in Cl; destruct Cl as [Cl Co]. apply andb_true_iff in Cl; destruct Cl as [Cb Ch].
+    simpl in Pre |- *.
+    pose proof (IHb Cb false false sl A) as IB.
+    destruct (ret_block false false body) as [body' h1] eqn:E1.
+    destruct (ret_block false false orelse) as [orelse' h2] eqn:E2.
+    pose proof (IHf Cf false false) as IFN.
+    pose proof (proj1 (proj2 ret_jfree) final Jf false false) as H3.
+    destruct (ret_block false false final) as [final' h3] eqn:E3.
+    pose proof (ret_hsel_none hs _ Eh) as Eh'.
+    destruct (ret_blocks hs) as [hs' h4] eqn:E4.
+    simpl in *. subst h3.
+    destruct IB as [sl1 [R1 [A1 [P1 P2]]]]. { intros [H|[H|H]]; try discriminate. apply Pre; right. rewrite H; reflexivity. }
+    destruct (IFN sl1 A1) as [sl3 [R3 [A3 [F1 F2]]]]. { intros [H|[H|H]]; discriminate. }
+    assert (C3 : sl3 rflag = sl1 rflag) by (apply F2; discriminate).
+    exists sl3. split; [|split; [exact A3|]].
+    + apply run_one. eapply RTryU; [exact R1 | exact Eh' | exact R3].
+    + split; [discriminate|]. intros N. rewrite C3. apply P2, N.
+  - (* try: body raises, handler runs, finally *)
+    intros body hs orelse final s d tr1 s1 d1 h tr2 oh s2 d2 tr3 s3 d3 _ IHb Eh _ IHh _ IHf. split; [|intros; exact I].
+    intros Cl used sl A Pre. simpl in Cl.
+    apply andb_true_iff in Cl; destruct Cl as [Cl Jf]. apply andb_true_iff in Cl; destruct Cl as [Cl Cf].
+    apply andb_true_iff in Cl; destruct Cl as [Cl Co]. apply andb_true_iff in Cl; destruct Cl as [Cb Ch].
+    simpl in Pre |- *.
+    pose proof (IHb Cb false false sl A) as IB.
+    destruct (ret_block false false body) as [body' h1] eqn:E1.
+    destruct (ret_block false false orelse) as [orelse' h2] eqn:E2.
+    pose proof (IHf Cf false false) as IFN.
+    pose proof (proj1 (proj2 ret_jfree) final Jf false false) as H3.
+    destruct (ret_block false false final) as [final' h3] eqn:E3.
+    destruct (ret_hsel hs _ _ Eh) as [Eh' Hu].
+    destruct (ret_blocks hs) as [hs' h4] eqn:E4.
+    simpl in *. subst h3.
+    destruct IB as [sl1 [R1 [A1 [P1 P2]]]]. { intros [H|[H|H]]; try discriminate. apply Pre; right. rewrite H; reflexivity. }
+    assert (C1 : sl1 rflag = sl rflag) by (apply P2; discriminate).
+    destruct (IHh (rclean_hsel _ _ _ Ch Eh) false false sl1 A1) as [sl2 [R2 [A2 [Q1 Q2]]]].
+    { intros [H|[H|H]]; try discriminate. rewrite C1. apply Pre; right. rewrite (Hu H). rewrite ?orb_true_r; reflexivity. }
+    destruct (IFN sl2 A2) as [sl3 [R3 [A3 [F1 F2]]]]. { intros [H|[H|H]]; discriminate. }
+    assert (C3 : sl3 rflag = sl2 rflag) by (apply F2; discriminate).
+    exists sl3. split; [|split; [exact A3|]].
+    + apply run_one. eapply RTryH; [exact R1 | exact Eh' | exact R2 | exact R3].
+    + split.
+      * intros E. destruct (Q1 E) as [X Y]. split; [rewrite C3; exact X | rewrite (Hu Y); rewrite ?orb_true_r; reflexivity].
+      * intros N. rewrite C3, (Q2 N). exact C1.
+  - (* raise *) intros l s d. split; [|intros; exact I]. intros _ used sl A _. exists sl. simpl.
+    split; [apply run_one; constructor|]. split; [exact A | apply rpost_refl; discriminate].
   - (* nil *) intros s d _ cur used sl A _. exists sl. simpl. split; [constructor|]. split; [exact A | apply rpost_refl; discriminate].
   - (* cons, first statement completes *)
     intros st r s d tr s1 d1 tr2 o2 s2 d2 _ IHs _ IHr Cl cur used sl A Pre.
@@ -516,6 +613,7 @@ Proof.
       * apply run_bapp_jump; [exact R1 | discriminate].
       * destruct (P1 eq_refl) as [Ct ->]. rewrite E2 in SK. simpl in SK, R1.
         rewrite <- (app_nil_r tr). eapply run_bapp; [exact R1 | apply SK, Ct].
+      * apply run_bapp_jump; [exact R1 | discriminate].
       * apply run_bapp_jump; [exact R1 | discriminate].
       * apply run_bapp_jump; [exact R1 | discriminate].
     + split; [|exact P2].
